@@ -90,6 +90,8 @@ class C14(Check):
         if rng.random() < 0.3:
             old_items.insert(rng.randint(0, len(old_items)), ["p", rng.choice([1, 3, 8])])
         new_items = copy.deepcopy(old_items) + fields(rng.randint(1, 3), "n")
+        if rng.random() < 0.25:
+            new_items.append(["p", rng.choice([8, 16, 24, 3, 13])])  # the newer revision ends in reserved (void) space
         D = {"name": rn + ".Dlm", "ver": [1, 0], "port": None, "ext": "dsdl", "dep": False,
              "secs": [{"union": False, "hdr": None, "items": old_items, "seal": 0}]}
         if D["name"].lower() in used:
